@@ -16,3 +16,5 @@ import ZckModel.Pin
 import ZckModel.Pred.Hdr
 import ZckModel.Reader
 import ZckModel.Pred.Read
+import ZckModel.Writer
+import ZckModel.Pred.Write
